@@ -56,6 +56,12 @@ Additional families (initial state 'full'; explicit histories):
                    before and after the whole batch differ and no item passed through an unresolved
                    path.  Histories  batch ; c1  and  p ; batch ; probe  (probe = lsa / lsd of every leaf).
 
+Family "multi" (bounded/c07_multi.py, shared with C06): SEVERAL dependent methods whose paths (depth 1-3)
+share prefixes, replacement at every level with nested values equal / different, sub-object classes with
+VALUE equality (__eq__/__hash__) whose siblings are equal-valued when the dependencies are bound or
+re-bound (operation eqs); the calls of EVERY method are compared with the values reached through its own
+paths.
+
 Initial states: all slots attached ('full'), all empty ('empty'), and 'hole:<slot>' (everything
 attached except the sub-tree at <slot>, which is None) for every slot below the first level.
 The depth-3 configurations ('a.b.c.x', ...) additionally run, from every initial state, every
@@ -213,7 +219,7 @@ def op_str(op):
     return '%s(%s)' % (op[0], ','.join(str(x) for x in op[1:]))
 
 
-SLOT_OPS = ('att', 'atd', 'bad', 'req', 'rdk', 'det', 'rat', 'sam')
+SLOT_OPS = ('att', 'atd', 'bad', 'req', 'rdk', 'det', 'rat', 'sam', 'eqs')
 
 
 def op_order(cfg, op):
@@ -299,6 +305,16 @@ class Model:
         vals = {p: override.get((slot, p), o['vals'][p]) for p in ('x', 'y')}
         return self.new_obj(slot, vals, sub)
 
+    def copy_as(self, slot, idx):
+        """fresh sub-tree for `slot` with the leaf values (and None sub-slots) of the sub-tree rooted at
+        object idx, which sits at ANOTHER slot of the same shape"""
+        o = self.objs[idx]
+        sub = {}
+        for ch in self.cfg.children(slot):
+            j = o['sub'].get(ch.split('.')[-1])
+            sub[ch.split('.')[-1]] = None if (j is None or self.objs[j]['bad']) else self.copy_as(ch, j)
+        return self.new_obj(slot, {p: o['vals'][p] for p in ('x', 'y')}, sub)
+
     # -- resolution
     def raw_at(self, slot):
         """index of the object currently stored at slot (a faulty object included), or None"""
@@ -381,6 +397,8 @@ class Model:
             return cur is None or not self.objs[cur]['bad']
         if kind in ('req', 'sam'):
             return self.at(op[1]) is not None
+        if kind == 'eqs':       # (family "multi", bounded/c07_multi.py) replace by a copy of the object at ANOTHER slot
+            return self.at(op[1]) is not None and self.at(op[2]) is not None
         if kind == 'arm':
             return self.applicable(op[1])
         if kind == 'det':
@@ -463,6 +481,8 @@ class Model:
             self.set_slot(op[1], self.copy_tree(op[1], self.at(op[1]), {}))
         elif kind == 'sam':
             self.set_slot(op[1], self.at(op[1]))
+        elif kind == 'eqs':
+            self.set_slot(op[1], self.copy_as(op[1], self.at(op[2])))
         elif kind == 'rdk':
             self.set_slot(op[1], self.copy_tree(op[1], self.at(op[1]), {self.cfg.leaves[op[2]]: self.fresh}))
         elif kind == 'det':
@@ -990,6 +1010,11 @@ def _run(tier, seed):
               "same slot several times) inside ONE batch -- H.param.update(...) or `with batch_call_watchers(H)` "
               "on the top object or an attached intermediate object H -- followed / preceded by single "
               "operations: one call per batch iff the reached values differ over the batch. "
+              "Family multi (bounded/c07_multi.py): 1-3 dependent methods whose paths (depth 1-3) share prefixes x "
+              "sub-object classes with identity / VALUE equality (__eq__/__hash__; siblings equal-valued when the "
+              "dependencies are bound, eqs: a slot replaced by an object equal to the one at another slot) x "
+              "replacement at every level with nested values equal / different: calls of EVERY method vs the values "
+              "reached through its own paths. "
               "A case = (dependency set, initial state, history of maximal "
               "length); all shorter histories are its prefixes and are checked step by step"
               % len(CONFIGS)),
@@ -1053,6 +1078,12 @@ def _run(tier, seed):
                    '%d of the %d dependency sets)' % (len(BATCH_QUICK), len(BATCH_ALL))))
         chunks = [tasks[i::nchunk] for i in range(nchunk)]
         futs = [ex.submit(run_chunk, c) for c in chunks if c]
+        # ---- family "multi" (bounded/c07_multi.py): several methods sharing path prefixes, depth 1-3 replaced at
+        #      every level, sub-object classes with value equality
+        from bounded import c07_multi
+        mchunks, mtext = c07_multi.plan('C07', tier, seed)
+        fut_m = [ex.submit(c07_multi.run_chunk, c) for c in mchunks]
+        B.note(mtext)
         for fu in futs:
             for specs, init, h, steps, viols, raised, nfr in fu.result():
                 B.case(key='deps=%s init=%s hist=%s' % ('+'.join(specs), init, ';'.join(op_str(o) for o in h)))
@@ -1073,6 +1104,7 @@ def _run(tier, seed):
                     if rk not in raisers or len(h[:i + 1]) < len(raisers[rk][1]):
                         raisers[rk] = (init, h[:i + 1])
                 allv += viols
+        multi_results = [fu.result() for fu in fut_m]
     # ---- one representative (shortest history) per class of failing step:
     #      (clause, dependency set, kind, class of the failing operation, indices of the dependencies
     #      whose reached value changed in that step); everything after a raising assignment is one class
@@ -1146,6 +1178,7 @@ def _run(tier, seed):
         per_clause[r[0]] = per_clause.get(r[0], 0) + 1
         if per_clause[r[0]] <= MAX_PER_CLAUSE:
             kept.append(r)
+    kept += [r + (None,) for r in c07_multi.collect(B, 'C07', multi_results)]
     with ProcessPoolExecutor(max_workers=8) as ex:
         oks = list(ex.map(confirm, [r[2] for r in kept]))
     for (clause, witness, replay, n, detail, _s), ok in zip(kept, oks):
